@@ -19,6 +19,13 @@ RULE = 'R22'
 TEXT = ('to_socp derives each field of its result from the same field of self by '
         'prefix-preserving operations only; soc_solve forwards degree and cuts')
 P = {'props': ['C18']}
+LIST_FIELDS = {'qmat'}        # python lists: + and += concatenate; on the array fields they add elementwise
+
+
+def _listlike(e):
+    return isinstance(e, (ast.List, ast.ListComp)) or (isinstance(e, ast.Call) and call_name(e) == 'list')
+
+
 PREFIX_FIELDS = ['linear', 'const', 'sense', 'vtype', 'ub', 'lb', 'obj', 'qmat']
 
 
@@ -68,13 +75,16 @@ def run(repo):
             elif isinstance(d, ast.Call) and call_name(d) == 'vert_comb' and d.args \
                     and isinstance(d.args[0], ast.Name) and d.args[0].id == v.id:
                 pass
+            elif p in LIST_FIELDS and isinstance(d, ast.BinOp) and isinstance(d.op, ast.Add) and \
+                    isinstance(d.left, ast.Name) and d.left.id == v.id and _listlike(d.right):
+                pass                # list concatenation  v = v + [...]
             elif is_self_attr(d):
                 probs.append('initialised from self.%s, not self.%s' % (d.attr, p))
             else:
                 probs.append('defined by `%s`, which is not a prefix-preserving extension' % ntext(d)[:50])
         if isinstance(v, ast.Name):
             for a in augs.get(v.id, []):
-                if not isinstance(a.op, ast.Add):
+                if not isinstance(a.op, ast.Add) or p not in LIST_FIELDS:
                     probs.append('`%s` is not an extension' % ntext(a)[:40])
             if base != 1 and not probs:
                 probs.append('has %d base definitions from self.%s' % (base, p))
